@@ -9,7 +9,7 @@ from typing import Any, Dict, List
 from hypothesis import strategies as st
 
 from hv.core import Campaign, CaseInfo, hta_call, require
-from hv.gen.files import clean_event, file_dict, read_any, scratch_dir, write_case
+from hv.gen.files import clean_event, file_dict, read_any, scratch_dir, world_size, write_case
 from hv.gen.kineto_sim import Opts, sim_case
 from hv.props.cp_common import CPRun, cp_case, edge_objects, env_flag, view
 
@@ -48,7 +48,7 @@ def check_counters(case: Dict[str, Any]) -> CaseInfo:
         hta_call("generate_trace_with_counters", lambda: ta.generate_trace_with_counters(time_series=flag, ranks=p["ranks"],
                                                                                           output_suffix=p["suffix"]))
         suffix = p["suffix"] or "_with_counters"
-        world = len(case["ranks"])
+        world = world_size(case)
         for rd in case["ranks"]:
             src_file = files[rd["rank"]]
             require(open(src_file, "rb").read() == before[rd["rank"]], "counters:source_file_untouched", src_file)
@@ -81,7 +81,7 @@ def counters_case(draw):
     o = Opts(steps=[0, 1, 2], w_launch=7, w_sync=2, max_top=4, streams=2)
     case = draw(sim_case(o, max_ranks=2))
     all_ranks = [r["rank"] for r in case["ranks"]]
-    mode = draw(st.sampled_from(["all", "none", "one"]))
+    mode = draw(st.sampled_from(["all", "none", "one"] if 0 in all_ranks else ["all", "one"]))  # None means rank 0
     ranks = None if mode == "none" else list(all_ranks) if mode == "all" else [draw(st.sampled_from(all_ranks))]
     case["params"] = {"ranks": ranks, "series": draw(st.sampled_from(["both", "queue", "bw"])),
                       "suffix": draw(st.sampled_from(["_with_counters", "", "_x"]))}
@@ -189,7 +189,7 @@ def check_overlay(case: Dict[str, Any]) -> CaseInfo:
     with scratch_dir() as d:
         run = CPRun(case, d)
         g = run.graph
-        src = file_dict(next(r for r in case["ranks"] if r["rank"] == run.rank), len(case["ranks"]))
+        src = file_dict(next(r for r in case["ranks"] if r["rank"] == run.rank), world_size(case))
         outdir = os.path.join(d, "overlay_out")
         for n, p in enumerate(ops):
             if p["kind"] == "overlay":
@@ -232,7 +232,7 @@ def check_file_io(case: Dict[str, Any]) -> CaseInfo:
 
     classes: List[str] = []
     with scratch_dir() as d:
-        world = len(case["ranks"])
+        world = world_size(case)
         paths = {}
         expect_rank = {}
         for i, rd in enumerate(case["ranks"]):
@@ -297,7 +297,7 @@ def campaigns(tier: str) -> List[Campaign]:
                                    "show_zero_weight_launch_edges": 0.2, "second_write_from_same_object": 0.3},
                  sample_view=lambda c: {**view(c), "overlay": c["overlay"]}),
         Campaign("file_io", file_io_case(), check_file_io, quick=240, thorough=8000, quick_shards=4,
-                 required_classes={"rank_updated": 0.4, "discovery": 0.3, "no_distributed_info": 0.15},
+                 required_classes={"rank_updated": 0.33, "discovery": 0.3, "no_distributed_info": 0.15},
                  sample_view=lambda c: {"fmts": c["fmts"], "new_ranks": c["new_ranks"], "drop_dist_info": c["drop_dist_info"],
                                         "n_events": [len(r["events"]) for r in c["ranks"]]}),
     ]
